@@ -8,7 +8,9 @@ from mirsym import models
 from . import lexcommon as LC
 
 CR = ['ironplcc', 'ironplc-dsl', 'ironplc-parser', 'ironplc-analyzer']
-ENCODINGS = ['utf8', 'utf8-bom', 'utf16le-bom', 'utf16be-bom', 'windows1252', 'binary']
+# 'windows1252' = text whose non-ASCII characters are all in U+00A0..U+00FF (same bytes in ISO-8859-1); 'windows1252-c1' = text with a character
+# that Windows-1252 stores in 0x80..0x9F (euro sign, dashes, curly quotes): ISO-8859-1 reads those bytes as C1 control characters
+ENCODINGS = ['utf8', 'utf8-bom', 'utf16le-bom', 'utf16be-bom', 'windows1252', 'windows1252-c1', 'binary']
 
 def _add(kr, role, what, wit, replay):
     if any(f.role == role for f in kr.findings): return
@@ -28,6 +30,8 @@ def _decode_contract(M, decoder, enc, method):
         if enc == 'utf8-bom': return '﻿T', False            # BOM kept as a character
         return 'replacement', True
     if decoder == 'WINDOWS_1252':
+        return ('T' if enc.startswith('windows1252') else 'mojibake'), False
+    if decoder == 'LATIN1':
         return ('T' if enc == 'windows1252' else 'mojibake'), False
     if decoder in ('UTF_16LE', 'UTF_16BE'):
         return ('T', False) if enc.startswith(decoder.lower().replace('_', '')) else ('replacement', True)
@@ -58,8 +62,12 @@ def k1(ctx, kr):
         if st['enc'] == 'utf8-bom': return ok(Str('\ufeffT'))
         return err(Agg('FromUtf8Error', [a[0]]))
     def st_into_bytes(M, fr, callee, a): return a[0].f[0]
+    def st_latin1(M, fr, callee, a):
+        # encoding_rs::mem::decode_latin1: every byte is the code point of the same value (ISO-8859-1), no errors, no BOM handling
+        text, _ = _decode_contract(M, 'LATIN1', st['enc'], 'decode_without_bom_handling'); st['used'].append(('LATIN1', 'mem::decode_latin1'))
+        return Str(text)
     M = Machine(P, stubs={r'^std::fs::read(::<.*>)?$': st_read, r'^std::string::String::from_utf8$|^std::str::from_utf8$|^core::str::from_utf8$': st_from_utf8,
-                          r'^std::string::FromUtf8Error::into_bytes$': st_into_bytes, r'^std::string::String::from_utf8_lossy$': lambda M_, fr, c, a: (_ for _ in ()).throw(Unsupported('from_utf8_lossy over an abstract file')), r'^encoding_rs::Encoding::decode': st_decode, r'^encoding_rs::Encoding::name$': lambda M_, fr, c, a: Ref(Cell(Str('enc'))),
+                          r'^std::string::FromUtf8Error::into_bytes$': st_into_bytes, r'^encoding_rs::mem::decode_latin1$': st_latin1, r"^std::borrow::Cow::<'_, str>::into_owned$|^std::borrow::Cow::into_owned$|^<std::borrow::Cow<'_, str> as std::string::ToString>::to_string$": lambda M_, fr, c, a: (M_.deref(a[0]) if isinstance(a[0], Ref) else a[0]), r'^std::string::String::from_utf8_lossy$': lambda M_, fr, c, a: (_ for _ in ()).throw(Unsupported('from_utf8_lossy over an abstract file')), r'^encoding_rs::Encoding::decode': st_decode, r'^encoding_rs::Encoding::name$': lambda M_, fr, c, a: Ref(Cell(Str('enc'))),
                           r'^source::diagnostic$': lambda M_, fr, c, a: Agg('Diagnostic', [Str('problem:%d' % M_.deref(a[0]).disc if isinstance(M_.deref(a[0]), EnumV) else 'problem')]),
                           r'^<std::io::Error as std::string::ToString>::to_string$': lambda M_, fr, c, a: Str('io error')})
     def entry(M):
@@ -80,7 +88,7 @@ def k1(ctx, kr):
             if res.disc != 1: _add(kr, 'C14/K1/unreadable-file-accepted', 'an unreadable file yields Ok', wit, None)
             return
         text = M.deref(res.f[0]).conc() if res.disc == 0 else None
-        if st['enc'] in ('utf8', 'utf8-bom', 'utf16le-bom', 'utf16be-bom', 'windows1252'):
+        if st['enc'] in ('utf8', 'utf8-bom', 'utf16le-bom', 'utf16be-bom', 'windows1252', 'windows1252-c1'):
             if text != 'T':
                 _add(kr, 'C14/K1/decoded-text-differs/' + st['enc'], 'a program stored as %s is read as %s instead of its text (decoders tried: %s)' % (st['enc'], repr(text) if text else 'an error', st['used']), wit, ('encoding', (st['enc'],)))
         if st['enc'] != 'binary' and text == 'T' and len(kr.validate) < 6: kr.validate.append(('encoding', (st['enc'],)))
@@ -97,8 +105,9 @@ def k1(ctx, kr):
 def _replay_encoding(enc):
     def rp(ctx):
         text = 'PROGRAM p\nVAR\n  x : INT; (* café ü *)\nEND_VAR\n  y := 1;\nEND_PROGRAM\n'
-        data = {'utf8': text.encode('utf-8'), 'utf8-bom': b'\xef\xbb\xbf' + text.encode('utf-8'), 'utf16le-bom': b'\xff\xfe' + text.encode('utf-16-le'),
-                'utf16be-bom': b'\xfe\xff' + text.encode('utf-16-be'), 'windows1252': text.encode('cp1252')}[enc]
+        if enc == 'windows1252-c1': text = 'PROGRAM p\nVAR\n  x : INT; (* 5 € – “quoted” *) @\nEND_VAR\n  y := 1;\nEND_PROGRAM\n'      # the invalid character after the comment makes the column observable
+        data = {'windows1252-c1': text.encode('cp1252'), 'utf8': text.encode('utf-8'), 'utf8-bom': b'\xef\xbb\xbf' + text.encode('utf-8'), 'utf16le-bom': b'\xff\xfe' + text.encode('utf-16-le'),
+                'utf16be-bom': b'\xfe\xff' + text.encode('utf-16-be'), 'windows1252': text.encode('cp1252')}.get(enc)
         rc0, out0, err0 = ctx.ironplcc(['check'], {'f.st': text.encode('utf-8')})
         rc, out, err_ = ctx.ironplcc(['check'], {'f.st': data})
         key = lambda rc_, e: (rc_, sorted(re.findall(r'error\[(P\d{4})\]', e)), sorted(re.findall(r'f\.st:(\d+:\d+)', e)))
